@@ -19,6 +19,11 @@ Oracles (written from the property text, the samplers' docstrings and the pinned
 * weighted         E = size or len(dataset); each rank yields E // W valid indices; no index occurs twice over all
                    ranks of an epoch; an index of weight 0 is never drawn when at least E weights are non-zero.
 * all three        iteration (and construction) ends within a logical step budget.
+* histories        (a) labels are changed on the SAME dataset object after a first round and NEW samplers are built: every
+                   clause must hold w.r.t. the current labels; (b) two live iterators over one sampler object, consumed
+                   alternately (zip(sampler, sampler) style, optionally with a head start): both must deliver exactly the
+                   stream a single stand-alone iteration with the same (seed, epoch, rank) delivers (which satisfied all
+                   clauses), i.e. an iteration owns its state.
 """
 from __future__ import annotations
 
@@ -44,7 +49,9 @@ RULE = ("three sampler kinds in rotation. class-balanced: 2..8 classes (incl. bi
         "(per-sample fallback) or read from another item; semi: labeled/unlabeled pools of 1..45 samples, chunk sizes "
         "1..5 that do / do not divide the pools, the three length modes; weighted: 1..60 float32/float64 weights with and "
         "without zeros, size None / < n / == n; all with world sizes 1..6 (every rank is run), 1-2 epochs from 0..3 on the "
-        "same sampler objects and a seed. A case is distinct by its full spec and non-trivial if the epoch has >= 1 index")
+        "same sampler objects and a seed; histories: labels changed on the same dataset object followed by newly built samplers "
+        "(60% of the datasets without bulk accessor, 20% of the others), and two live iterators over one sampler object consumed "
+        "alternately with head start 0/1/2/5 (half of the cases). A case is distinct by its full spec and non-trivial if the epoch has >= 1 index")
 ASSUMPTIONS = [
     "class-balanced sampling is only driven on fully labeled datasets whose labels lie in range(num_classes); a layout with an absent class "
     "is expected to be refused by the sampler's own assertion (refusal class cb:absent-class); samples_per_class=0 is not driven",
@@ -56,9 +63,14 @@ ASSUMPTIONS = [
     "weighted sampler: weights are float tensors with at least one positive entry in [1e-3, 1e3] or exactly 0; size >= 1 and len(dataset) >= 1 "
     "(an empty epoch request makes torch.multinomial refuse n_sample=0; the property does not say what an empty draw is)",
     "equality of consecutive epochs / agreement of the rank split with the world-size-1 draw is C12's clause and not judged here",
+    "a sampler describes the labels its dataset has when the sampler is constructed (relabel histories build new samplers; an existing "
+    "sampler is not expected to follow later label changes)",
+    "an epoch's stream is a function of (seed, epoch, rank) only (all three samplers are seeded, default seed 0), so two concurrently "
+    "consumed iterators of one sampler object must both equal the stand-alone stream",
 ]
 MONITORS = ["cb_epochs_checked", "cb_reuse_checked", "semi_epochs_checked", "semi_blocks_checked", "semi_rank_pairs_compared",
-            "weighted_epochs_checked", "weighted_zero_weight_checked", "step_budget_runs", "indices_validated"]
+            "weighted_epochs_checked", "weighted_zero_weight_checked", "step_budget_runs", "indices_validated",
+            "relabel_histories_checked", "concurrent_iterators_checked"]
 
 _mods = [importlib.import_module(m) for m in (
     "kappadata.samplers.class_balanced_sampler", "kappadata.samplers.semi_sampler", "kappadata.samplers.weighted_sampler",
@@ -126,9 +138,24 @@ def _dataset(classes, dim, getall, item="class", decoy_shift=1):
     return Leaf(len(classes), classes=classes, n_classes=dim, getall_kind=getall)
 
 
+def _set_labels(ds, classes):
+    """change the labels of the SAME dataset object (in place)"""
+    if isinstance(ds, PlainDs):
+        ds._c[:] = classes
+    elif isinstance(ds, GroupLeaf):
+        ds.groups[:] = classes
+    else:
+        ds.classes[:] = classes
+
+
 # ------------------------------------------------------------------------------------------------ generation
 def _world(rng):
     return rng.choice([1, 1, 2, 2, 3, 3, 4, 5, 6])
+
+
+def _pair(rng):
+    """two live iterators over one sampler object: which rank, head start of the first iterator"""
+    return {"rank": rng.randrange(6), "lag": rng.choice([0, 0, 1, 2, 5])} if rng.random() < 0.5 else None
 
 
 def _epochs(rng):
@@ -173,9 +200,14 @@ def _gen_cb(rng):
     if rng.random() < 0.04:
         W = k * (spc or hi) + rng.randint(1, 2)  # more ranks than indices
         W = min(W, 24)
+    getall = rng.choice(["list", "list", "ndarray", "tensor", "none"])
+    relabel = None
+    if rng.random() < (0.6 if getall == "none" else 0.2):
+        n = len(classes)
+        relabel = [[i, rng.randrange(k)] for i in rng.sample(range(n), rng.randint(1, max(1, n // 3)))]
     return {"kind": "cb", "classes": classes, "dim": 1 if binary else k, "spc": spc, "shuffle": rng.random() < 0.7,
             "seed": rng.randrange(10 ** 6), "epochs": _epochs(rng), "W": W,
-            "getall": rng.choice(["list", "list", "ndarray", "tensor", "none"]),
+            "getall": getall, "relabel": relabel, "pair": _pair(rng),
             "item": "group" if rng.random() < 0.15 else "class", "decoy_shift": rng.randint(1, max(1, k - 1)),
             "defaults": rng.random() < 0.3}
 
@@ -206,9 +238,23 @@ def _gen_semi(rng):
     if focus:
         mode = rng.choice(["labeled", "unlabeled", "unlabeled", "all"])
         W = rng.choice([2, 2, 3, 4])
+    getall = rng.choice(["list", "list", "ndarray", "tensor", "none"])
+    relabel = None
+    if rng.random() < (0.6 if getall == "none" else 0.2):
+        n = len(classes)
+        cur = list(classes)
+        relabel = []
+        for i in rng.sample(range(n), rng.randint(1, max(1, n // 3))):
+            new = rng.randrange(ncls) if (cur[i] == -1 or rng.random() < 0.2) else -1
+            trial = list(cur)
+            trial[i] = new
+            if any(c == -1 for c in trial) and any(c != -1 for c in trial):  # both pools stay non-empty
+                cur = trial
+                relabel.append([i, new])
+        relabel = relabel or None
     return {"kind": "semi", "classes": classes, "L": L, "U": U, "mode": mode,
             "W": W, "seed": rng.randrange(10 ** 6), "epochs": _epochs(rng),
-            "getall": rng.choice(["list", "list", "ndarray", "tensor", "none"]), "defaults": rng.random() < 0.3}
+            "getall": getall, "relabel": relabel, "pair": _pair(rng), "defaults": rng.random() < 0.3}
 
 
 def _gen_weighted(rng):
@@ -243,7 +289,7 @@ def _gen_weighted(rng):
     if rng.random() < 0.04:
         W = min((size or n) + rng.randint(1, 2), 24)
     return {"kind": "weighted", "weights": w, "dtype": rng.choice(["float32", "float32", "float64"]), "size": size, "W": W,
-            "seed": rng.randrange(10 ** 6), "epochs": _epochs(rng), "defaults": rng.random() < 0.3}
+            "seed": rng.randrange(10 ** 6), "epochs": _epochs(rng), "pair": _pair(rng), "defaults": rng.random() < 0.3}
 
 
 _GEN = [_gen_cb, _gen_semi, _gen_weighted]
@@ -347,6 +393,55 @@ def _epoch(run, spec, samplers, epoch, want_len, size_hint, what):
     return streams
 
 
+def _pair_check(run, spec, samplers, epoch, streams, size_hint, what):
+    """two live iterators over ONE sampler object, consumed alternately; both must equal the stand-alone stream"""
+    pair = spec.get("pair")
+    if not pair or not streams or not streams[0]:
+        return True
+    kind = spec["kind"]
+    r = pair["rank"] % len(samplers)
+    s, alone, lag = samplers[r], streams[r], pair["lag"]
+    cap = len(alone) + 8
+
+    def go():
+        s.set_epoch(epoch)
+        its = [iter(s), None]
+        out = [[], []]
+        live = [True, False]
+        for _ in range(lag):
+            try:
+                out[0].append(next(its[0]))
+            except StopIteration:
+                live[0] = False
+                break
+        its[1] = iter(s)
+        live[1] = True
+        while any(live):
+            for j in (0, 1):
+                if live[j]:
+                    try:
+                        out[j].append(next(its[j]))
+                    except StopIteration:
+                        live[j] = False
+                    if len(out[j]) > cap:
+                        live[j] = False
+        return out
+    run.count("step_budget_runs")
+    with StepBudget(_budget(2 * size_hint), _CODES(), what=f"{what} epoch {epoch} rank {r}, two live iterators"):
+        ok, out = call_real(run, go, crash_key=f"{kind}:iter-crash", what=f"{what} epoch {epoch} rank {r}: two live iterators over one sampler")
+    if not ok:
+        return False
+    run.count("concurrent_iterators_checked")
+    for j in (0, 1):
+        got = [int(i) if hasattr(i, "__index__") and not isinstance(i, bool) else i for i in out[j]]
+        if got != alone:
+            run.violation(f"{kind}:concurrent-iterators", f"{what} epoch {epoch} rank {r}/{spec['W']}: two iterators over the same sampler object consumed "
+                                                         f"alternately (first one {lag} ahead): iterator {j} yields {_s(got)}, a stand-alone iteration "
+                                                         f"with the same seed/epoch yields {_s(alone)}")
+            return False
+    return True
+
+
 def _n(spec):
     return len(spec["weights"]) if spec["kind"] == "weighted" else len(spec["classes"])
 
@@ -360,24 +455,35 @@ def _wclass(E, W):
 
 
 # ------------------------------------------------------------------------------------------------ class-balanced
-def _run_cb(run, spec):
+def _relabeled(spec):
+    classes = list(spec["classes"])
+    for i, c in spec["relabel"]:
+        classes[i] = c
+    return dict(spec, classes=classes, relabel=None)
+
+
+def _run_cb(run, spec, ds=None):
     classes, dim, W = spec["classes"], spec["dim"], spec["W"]
     ncls = max(2, dim)
     cnt = Counter(classes)
     absent = [c for c in range(ncls) if cnt[c] == 0]
     spc = spec["spc"] if spec["spc"] is not None else max(cnt.values())
     E = ncls * spc
-    ds = _dataset(classes, dim, spec["getall"], spec["item"], spec["decoy_shift"])
+    phase = "" if ds is None else " built after relabeling the same dataset object"
+    if ds is None:
+        ds = _dataset(classes, dim, spec["getall"], spec["item"], spec["decoy_shift"])
+    else:
+        run.count("relabel_histories_checked")
     kw = {"shuffle": spec["shuffle"], "seed": spec["seed"]}
     if spec["spc"] is not None:
         kw["samples_per_class"] = spec["spc"]
     if spec["item"] == "group" and spec["getall"] != "none":
         kw["getall_item"] = "group"
-    what = f"ClassBalancedSampler({kw}, class sizes {[cnt[c] for c in range(ncls)]}, labels as {spec['getall']})"
+    what = f"ClassBalancedSampler({kw}, class sizes {[cnt[c] for c in range(ncls)]}, labels as {spec['getall']}){phase}"
     lo, hi = min(v for v in cnt.values()), max(cnt.values())
     spc_cls = "none" if spec["spc"] is None else "<=min" if spc <= lo else "<=max" if spc <= hi else ">max"
     run.cover("cb", _wclass(E, W), spc_cls, spec["shuffle"], spec["getall"], "binary" if dim == 1 else "multi",
-              "absent" if absent else "full", kw.get("getall_item", "class"))
+              "absent" if absent else "full", kw.get("getall_item", "class"), "relabeled" if phase else "first")
     samplers = _construct(run, spec, lambda **rk: ClassBalancedSampler(ds, **kw, **rk), len(classes) + ncls, what,
                           refusal_class="cb:absent-class" if absent else None)
     if samplers is None:
@@ -414,6 +520,12 @@ def _run_cb(run, spec):
         if e == spec["epochs"][0] and E // W > 0:
             run.sample({"kind": "cb", "class_sizes": [cnt[c] for c in range(ncls)], "spc": spec["spc"], "W": W, "epoch": e,
                         "per_class_totals": [per_class[c] for c in range(ncls)], "rank0": streams[0][:24]}, cap=2)
+    if not _pair_check(run, spec, samplers, e, streams, E + len(classes) + ncls, what):
+        return
+    if spec.get("relabel"):
+        spec2 = _relabeled(spec)
+        _set_labels(ds, spec2["classes"])
+        _run_cb(run, spec2, ds=ds)
 
 
 # ------------------------------------------------------------------------------------------------ semi
@@ -422,20 +534,25 @@ def _log_falling(n, k):
     return math.lgamma(n + 1) - math.lgamma(n - k + 1)
 
 
-def _run_semi(run, spec):
+def _run_semi(run, spec, ds=None):
     classes, L, U, W, mode = spec["classes"], spec["L"], spec["U"], spec["W"], spec["mode"]
     lab = [i for i, c in enumerate(classes) if c != -1]
     unl = [i for i, c in enumerate(classes) if c == -1]
     labset = set(lab)
     E = _effective(spec)
-    ds = _dataset(classes, max(1, max(classes) + 1), spec["getall"])
+    phase = "" if ds is None else " built after relabeling the same dataset object"
+    if ds is None:
+        ds = _dataset(classes, max(1, max(classes) + 1), spec["getall"])
+    else:
+        run.count("relabel_histories_checked")
     kw = {"num_labeled": L, "num_unlabeled": U, "seed": spec["seed"], "length_mode": mode}
-    what = f"SemiSampler({kw}, {len(lab)} labeled / {len(unl)} unlabeled, labels as {spec['getall']})"
+    what = f"SemiSampler({kw}, {len(lab)} labeled / {len(unl)} unlabeled, labels as {spec['getall']}){phase}"
     want = E // W
     n_lab_pos = sum(1 for k in range(want) if k % (L + U) < L)
     run.cover("semi", mode, _wclass(E, W), "L1" if L == 1 else "L>1", "U1" if U == 1 else "U>1",
               "L|pool" if len(lab) % L == 0 else "L∤pool", "U|pool" if len(unl) % U == 0 else "U∤pool",
-              "lab-repeats" if n_lab_pos > len(lab) else "lab-once", "unl-repeats" if want - n_lab_pos > len(unl) else "unl-once")
+              "lab-repeats" if n_lab_pos > len(lab) else "lab-once", "unl-repeats" if want - n_lab_pos > len(unl) else "unl-once",
+              "relabeled" if phase else "first")
     samplers = _construct(run, spec, lambda **rk: SemiSampler(ds, **kw, **rk), len(classes), what)
     if samplers is None:
         return
@@ -478,6 +595,8 @@ def _run_semi(run, spec):
         if e == spec["epochs"][0] and want > 0:
             run.sample({"kind": "semi", "labeled": len(lab), "unlabeled": len(unl), "L": L, "U": U, "mode": mode, "W": W, "epoch": e,
                         "len": want, "rank0_classes": [classes[i] for i in streams[0][:24]]}, cap=4)
+    if not _pair_check(run, spec, samplers, e, streams, E + len(classes), what):
+        return
     # note (never a verdict): rank a in epoch b vs rank b in epoch a
     if W > 1 and want > 0 and max(_log_falling(len(lab), min(n_lab_pos, len(lab))),
                                   _log_falling(len(unl), min(want - n_lab_pos, len(unl)))) >= LOG_COINCIDENCE_BOUND:
@@ -491,6 +610,10 @@ def _run_semi(run, spec):
                 run.count("note_semi_rank0_epoch1_equals_rank1_epoch0")
         except Exception:
             pass
+    if spec.get("relabel"):
+        spec2 = _relabeled(spec)
+        _set_labels(ds, spec2["classes"])
+        _run_semi(run, spec2, ds=ds)
 
 
 # ------------------------------------------------------------------------------------------------ weighted
@@ -529,6 +652,7 @@ def _run_weighted(run, spec):
                 return
         if e == spec["epochs"][0] and E // W > 0:
             run.sample({"kind": "weighted", "n": n, "zeros": n - nnz, "size": spec["size"], "W": W, "epoch": e, "streams": [s[:16] for s in streams[:3]]}, cap=6)
+    _pair_check(run, spec, samplers, e, streams, E + n, what)
 
 
 _nonterminating = Counter()  # per kind; after a few budget overruns the kind is no longer driven (each overrun burns a whole budget)
